@@ -3,6 +3,7 @@
 package tracer
 
 import (
+	"bytes"
 	"context"
 	"errors"
 	"fmt"
@@ -813,3 +814,83 @@ func (b *vfSlowBody) Read(p []byte) (int, error) {
 	return n, nil
 }
 func (b *vfSlowBody) Close() error { return nil }
+
+// TestVerifC16LongStream: completion must not depend on how many events a call produced.
+func TestVerifC16LongStream(t *testing.T) {
+	rep := verifkit.Begin("C16", "long-stream", "traced client round trips and server handlers whose response stream carries N data messages, N in {1, 100, 1000, 4000, 4090..4100, 5000, 8191..8193, 20000, 70000}; oracle: exactly one Complete per call, terminal event last, N response data events recorded; distinct = (side, N)")
+	defer rep.Write()
+	ns := []int{1, 100, 1000, 4000, 5000, 8191, 8192, 8193, 20000, 70000}
+	for n := 4090; n <= 4100; n++ {
+		ns = append(ns, n)
+	}
+	for _, n := range ns {
+		var body bytes.Buffer
+		for i := 0; i < n; i++ {
+			body.Write([]byte{0, 0, 0, 0, 1, byte(i)})
+		}
+		body.Write([]byte{2, 0, 0, 0, 2, '{', '}'})
+		for _, server := range []bool{false, true} {
+			rep.Eval(1)
+			rep.DistinctKey(server, n)
+			coll := &vfCountingCollector{}
+			name := fmt.Sprintf("long-%v-%d", server, n)
+			if server {
+				h := TracingHandler(http.HandlerFunc(func(w http.ResponseWriter, r *http.Request) {
+					_, _ = io.Copy(io.Discard, r.Body)
+					w.Header().Set("Content-Type", "application/connect+proto")
+					b := body.Bytes()
+					for len(b) > 0 {
+						k := 4096
+						if k > len(b) {
+							k = len(b)
+						}
+						_, _ = w.Write(b[:k])
+						b = b[k:]
+					}
+				}), coll)
+				req := httptest.NewRequest("POST", "/svc/M", strings.NewReader("xyz"))
+				req.Header.Set("X-Test-Case-Name", name)
+				h.ServeHTTP(httptest.NewRecorder(), req)
+			} else {
+				rt := TracingRoundTripper(roundTripperFunc(func(req *http.Request) (*http.Response, error) {
+					if req.Body != nil {
+						_, _ = io.Copy(io.Discard, req.Body)
+						req.Body.Close()
+					}
+					return &http.Response{StatusCode: 200, Proto: "HTTP/1.1", ProtoMajor: 1, ProtoMinor: 1, Header: http.Header{"Content-Type": {"application/connect+proto"}},
+						Body: io.NopCloser(bytes.NewReader(body.Bytes()))}, nil
+				}), coll)
+				req, _ := http.NewRequest("POST", "http://x/y", strings.NewReader("abc"))
+				req.Header.Set("X-Test-Case-Name", name)
+				req.Header.Set("Content-Type", "application/connect+proto")
+				resp, err := rt.RoundTrip(req)
+				if err == nil {
+					_, _ = io.Copy(io.Discard, resp.Body)
+					resp.Body.Close()
+				}
+			}
+			w := map[string]any{"server_side": server, "response_data_messages": n}
+			coll.mu.Lock()
+			ts := coll.traces[name]
+			coll.mu.Unlock()
+			if len(ts) != 1 {
+				rep.Violation(fmt.Sprintf("builder/long-stream-complete-count/%d", len(ts)), fmt.Sprintf("Collector.Complete called %d times for a call with %d response messages", len(ts), n), w)
+				continue
+			}
+			data := 0
+			for j, e := range ts[0].Events {
+				if d, ok := e.(*ResponseBodyData); ok && (d.Envelope == nil || d.Envelope.Flags&2 == 0) {
+					data++ // (the end-of-stream envelope is recorded as data too; not counted here)
+				}
+				if vfIsTerminal(e) && j != len(ts[0].Events)-1 {
+					rep.Violation("builder/long-stream-event-after-completion", fmt.Sprintf("event after terminal %T", e), w)
+				}
+			}
+			if data != n {
+				rep.Violation("builder/long-stream-data-events", fmt.Sprintf("%d response data events recorded for %d messages", data, n), w)
+			}
+			rep.Count("long_streams_checked", 1)
+		}
+	}
+	rep.Sample(map[string]any{"side": "client", "messages": 4096, "expect": "one Complete; 4096 ResponseBodyData events then the end"})
+}
